@@ -106,7 +106,9 @@ def arith(draw, depth=3, allow_complex=True):
         return ["Cond", draw(condition(depth - 1, allow_complex)), draw(sub), draw(sub)]
     # a MultiIndex used as an operand of arithmetic (it is an LExpr)
     n = draw(st.integers(1, 3))
-    mi = ["MI", [draw(sym(("INT",))) for _ in range(n)], [draw(st.integers(1, 5)) for _ in range(n)]]
+    # components are symbols or compound index expressions (block_size*i+offset is what FFCx itself builds)
+    comps = [draw(st.one_of(sym(("INT",)), sym(("INT",)), int_expr(1))) for _ in range(n)]
+    mi = ["MI", comps, [draw(st.integers(1, 5)) for _ in range(n)]]
     op = draw(st.sampled_from(["Mul", "Sub", "Add", "Neg", "Div"]))
     if op == "Neg":
         return ["Neg", mi]
@@ -247,6 +249,8 @@ def arith_children():
         "AccMI": ["Acc", "A", "SCALAR", [["MI", [I_, J_], [3, 4]]]],
         "MI1": ["MI", [I_], [3]],
         "MI2": ["MI", [I_, J_], [3, 4]],
+        "MI1c": ["MI", [["Add", ["Mul", ["LitI", 2], I_], ["LitI", 1]]], [7]],
+        "MI2c": ["MI", [["Add", I_, ["LitI", 1]], ["Sub", J_, ["LitI", 1]]], [3, 4]],
         "Neg": ["Neg", A_],
         "NegLit": ["Neg", ["LitF", 2.0]],
         "Add": ["Add", A_, B_],
